@@ -7,6 +7,7 @@
    wake-ups as progress.  "Empty" / "full" are the code's own tests on cursors / counts. *)
 From MV Require Import C03.Model C03.ProofsCommon.
 From MV Require Import C03.ProofsChanF C03.ProofsChanM C03.ProofsRing C03.ProofsAbq C03.ProofsDbuf C03.ProofsBalanced C03.Variants.
+From MV Require Import C03.FairGen C03.ProofsFairChanF C03.ProofsFairChanF2 C03.ProofsFairRing C03.ProofsFairRing2.
 From MV Require C04.Model C04.ProofsLock C03.ProofsSync.
 Local Open Scope Z_scope.
 
@@ -228,6 +229,87 @@ Theorem synclock_no_lost_wakeup : forall P n it sched t,
              C03.ProofsSync.l_enabled P s u).
 Proof. exact C03.ProofsSync.synclock_no_lost_wakeup_all. Qed.
 Print Assumptions synclock_no_lost_wakeup.
+
+(* ---------- FAIR SCHEDULES: balanced scripts terminate, nobody is left blocked ---------- *)
+(* Fairness as in coq/C14/ProofsFair.v: a schedule is a sequence of rounds, each round schedules
+   every thread at least once (any order, any multiplicity, any schedule choices); a measure no
+   step increases and every step of a non-spinning thread decreases; a productive (enabled and
+   not spinning) thread exists until everybody has finished (C03/FairGen.v). *)
+
+(* channel, futex-waiting reader: capacity 2^k >= 4, one reader, any number of writers behind the
+   write mutex (one if WRITE_SINGLE), the reader asks for exactly as many messages as the writers
+   write; from ANY reachable state, after more than [fM] fair rounds -- with futex waits that are
+   interrupted / return spuriously as often as the schedule likes and writers that bounce off a
+   full channel and retry -- every thread has finished *)
+Theorem chan_no_lost_wakeup_fair : forall k n wl nreads wk pre rounds,
+  2 <= k -> (wl = true \/ (n <= 2)%nat) ->
+  tsum f_rr (f_thr (finit n (2 ^ k) wl nreads wk)) n = tsum f_ww (f_thr (finit n (2 ^ k) wl nreads wk)) n ->
+  let s := exec fsys fstep (finit n (2 ^ k) wl nreads wk) pre in
+  Forall (fair_round n) rounds -> (fM s < length rounds)%nat ->
+  forall t, (t < n)%nat -> f_done (exec fsys fstep (finit n (2 ^ k) wl nreads wk) (pre ++ concat rounds)) t.
+Proof. exact chan_futex_no_lost_wakeup_fair_all. Qed.
+Print Assumptions chan_no_lost_wakeup_fair.
+
+(* non-vacuity: round-robin, a reader that really sleeps (rounds 4..9) and is really woken *)
+Theorem chan_no_lost_wakeup_fair_example :
+  let rr := [(0,0);(1,0);(2,0)]%nat in
+  fair_round 3 rr /\
+  tsum f_rr (f_thr f_fair_demo) 3 = tsum f_ww (f_thr f_fair_demo) 3 /\
+  (fM f_fair_demo < 600)%nat /\
+  f_pc (f_thr (exec fsys fstep f_fair_demo (concat (repeat rr 4))) 0%nat) = FRBlocked /\
+  f_pc (f_thr (exec fsys fstep f_fair_demo (concat (repeat rr 9))) 0%nat) = FRBlocked /\
+  f_pc (f_thr (exec fsys fstep f_fair_demo (concat (repeat rr 10))) 0%nat) = FRSeg /\
+  (forall t, (t < 3)%nat -> f_done (exec fsys fstep f_fair_demo (concat (repeat rr 600))) t).
+Proof. exact chan_futex_fair_example. Qed.
+Print Assumptions chan_no_lost_wakeup_fair_example.
+
+(* ring buffer, futex-waiting readers (wait / single-wait / read-once): capacity 2^k, T < capacity
+   messages in all (nobody is lapped), every reader asks for at most T (read-once: the readers
+   together); from any reachable state, after more than [gM] fair rounds every thread has finished *)
+Theorem ring_no_lost_wakeup_fair : forall k n nr md wl ks pre rounds,
+  0 <= k ->
+  let s0 := ginit n nr (2 ^ k) md wl ks in
+  let T := tsum g_ww (g_thr s0) n in
+  Z.of_nat T < 2 ^ k ->
+  (md = GMSingle -> (nr <= 1)%nat) ->
+  (wl = true \/ (n <= nr + 1)%nat) ->
+  (md <> GMOnce -> forall t, (t < nr)%nat -> (ks t <= T)%nat) ->
+  (md = GMOnce -> (tsum g_rr (g_thr s0) n <= T)%nat) ->
+  let s := exec gsys gstep s0 pre in
+  Forall (fair_round n) rounds -> (gM s < length rounds)%nat ->
+  forall t, (t < n)%nat -> g_done (exec gsys gstep s0 (pre ++ concat rounds)) t.
+Proof. exact ring_no_lost_wakeup_fair_all. Qed.
+Print Assumptions ring_no_lost_wakeup_fair.
+
+Theorem ring_no_lost_wakeup_fair_example :
+  let rr := [(0,0);(1,0);(2,0)]%nat in
+  fair_round 3 rr /\
+  (Z.of_nat (tsum g_ww (g_thr g_fair_demo) 3) < 2 ^ 2)%Z /\
+  (gM g_fair_demo < 650)%nat /\
+  (let s := exec gsys gstep g_fair_demo (concat (repeat rr 4)) in
+   g_pc (g_thr s 0%nat) = GRBlocked /\ g_pc (g_thr s 1%nat) = GRBlocked) /\
+  (let s := exec gsys gstep g_fair_demo (concat (repeat rr 7)) in
+   g_pc (g_thr s 0%nat) = GRBlocked /\ g_pc (g_thr s 1%nat) = GRBlocked) /\
+  (let s := exec gsys gstep g_fair_demo (concat (repeat rr 8)) in
+   g_pc (g_thr s 0%nat) = GRSeg1 /\ g_pc (g_thr s 1%nat) = GRSeg1) /\
+  (forall t, (t < 3)%nat -> g_done (exec gsys gstep g_fair_demo (concat (repeat rr 650))) t).
+Proof. exact ring_fair_example. Qed.
+Print Assumptions ring_no_lost_wakeup_fair_example.
+
+(* condvar-mode channel: the same statement is FALSE under this notion of fairness as soon as a
+   writer can bounce off a full channel (its retry takes read_mutex, and the schedule may give the
+   reader its turn only then): 2000 fair rounds without any progress of the reader, who is never
+   asleep (safety theorems chan_cv_* hold) -- mutex unfairness + the client's retry loop, not a
+   lost wake-up *)
+Theorem chan_cv_fair_schedule_can_starve_reader :
+  let s0 := minit 2 4 false 3 (fun _ => 3%nat) in
+  let s := exec msys mstep s0 (m_starve_pre ++ concat (repeat m_starve_round 2000)) in
+  (forall t, (t < 2)%nat -> In t (map fst m_starve_round)) /\
+  m_pc (m_thr s 0%nat) = MRLock /\ m_k (m_thr s 0%nat) = 3%nat /\
+  m_pc (m_thr s 1%nat) = MWSeg /\ m_k (m_thr s 1%nat) = 1%nat /\
+  ~ m_empty s /\ m_rm s = None.
+Proof. exact chan_cv_full_retry_starves_reader. Qed.
+Print Assumptions chan_cv_fair_schedule_can_starve_reader.
 
 (* ---------- refutations of the classic broken variants (C03/Variants.v) ---------- *)
 
